@@ -143,7 +143,9 @@ pub fn generate(r: &mut Runner) {
         let ps: Vec<usize> = (0..np).map(|_| gen::period(&mut r.rng, 300)).collect();
         let ms: Vec<f64> = (0..nm).map(|_| *r.rng.pick(&[0.0, 0.5, 1.0, 2.0, 3.0, 10.0, 1e3, 1e6])).collect();
         let len = r.rng.range(1, maxlen);
-        let scale = *r.rng.pick(&[1e-3, 1.0, 100.0, 1e6, 1e9, 1e11]);
+        // magnitudes: the everyday ones and — every fourth case — tiny ones (C09 has no lower bound on the magnitude:
+        // an absolute epsilon anywhere in a mean or a band shows only on values far below 1)
+        let scale = if i % 4 == 1 { *r.rng.pick(TINY_SCALES) } else { *r.rng.pick(&[1e-3, 1.0, 100.0, 1e6, 1e9, 1e11]) };
         // cancellation-engineered: large values then a flat stretch (variance could go negative)
         let cancel = i % 4 == 0;
         let regime = if cancel { "plateau" } else { *r.rng.pick(gen::REGIMES) };
@@ -178,6 +180,76 @@ pub fn generate(r: &mut Runner) {
         let nt = c.ops.len() > maxp;
         r.run(c, nt);
     }
+    // tiny same-sign streams for every indicator: strictly positive (or strictly negative) values at each tiny scale
+    for (i, name) in INDS.iter().enumerate() {
+        let (np, nm) = ind::arity(name).unwrap();
+        for (si, scale) in TINY_SCALES.iter().enumerate() {
+            for rep in 0..(if r.tier == Tier::Quick { 2 } else { 12 }) {
+                let ps: Vec<usize> = (0..np).map(|_| if rep == 0 { 1 + (i + si) % 4 } else { gen::period(&mut r.rng, 60) }).collect();
+                let ms: Vec<f64> = (0..nm).map(|_| *r.rng.pick(&[0.0, 0.5, 2.0, 1e3])).collect();
+                let regime = *r.rng.pick(&["walk", "flat", "plateau", "saw", "trend", "alt"]);
+                let len = r.rng.range(1, 200);
+                let neg = has_scalar_any_sign(name) && r.rng.chance(0.3);
+                let xs: Vec<f64> = gen::stream(&mut r.rng, regime, len, true, *scale).into_iter().map(|x| if neg { -x } else { x }).collect();
+                let mut c = Case::new("C09", &format!("tiny-{}", regime), name, &ps, &ms);
+                if !ind::has_next_name(name) || (matches!(*name, "TrueRange" | "AverageTrueRange" | "KeltnerChannel") && r.rng.chance(0.5) && !neg) {
+                    c.ops = gen::valid_bars(&mut r.rng, &xs).into_iter().map(Op::Bar).collect();
+                } else {
+                    c.ops = xs.into_iter().map(Op::Next).collect();
+                }
+                if rep % 2 == 1 && c.ops.len() > 2 {
+                    let at = r.rng.range(1, c.ops.len() - 1);
+                    c.ops.insert(at, Op::Reset);
+                    c.kind = format!("{}-with-reset", c.kind);
+                }
+                let maxp = ps.iter().copied().max().unwrap_or(1);
+                let nt = c.ops.len() > maxp;
+                r.run(c, nt);
+            }
+        }
+    }
+    // boundary periods for the constructors that allocate no window (the exponential family): each period position
+    // in turn takes a value next to 2^31, 2^32, 2^53, 2^63 or usize::MAX, the other positions a small sampled period
+    for name in INDS {
+        if !ALLOC_FREE.contains(name) {
+            continue;
+        }
+        let (np, nm) = ind::arity(name).unwrap();
+        for pos in 0..np {
+            for b in BOUNDARY_PERIODS {
+                let ps: Vec<usize> = (0..np).map(|j| if j == pos { *b } else { gen::period(&mut r.rng, 30) }).collect();
+                let ms: Vec<f64> = (0..nm).map(|_| *r.rng.pick(&[0.0, 0.5, 2.0, 1e3])).collect();
+                let regime = *r.rng.pick(gen::REGIMES);
+                let scale = *r.rng.pick(&[1e-3, 1.0, 100.0, 1e6]);
+                let len = r.rng.range(2, 60);
+                let bars = matches!(*name, "AverageTrueRange" | "KeltnerChannel") && r.rng.chance(0.5);
+                let xs = gen::stream(&mut r.rng, regime, len, bars, scale);
+                let mut c = Case::new("C09", "boundary-period", name, &ps, &ms);
+                if bars {
+                    c.ops = gen::valid_bars(&mut r.rng, &xs).into_iter().map(Op::Bar).collect();
+                } else {
+                    c.ops = xs.into_iter().filter(|x| x.abs() <= 1e12).map(Op::Next).collect();
+                }
+                if c.ops.len() > 2 && r.rng.chance(0.3) {
+                    let at = r.rng.range(1, c.ops.len() - 1);
+                    c.ops.insert(at, Op::Reset);
+                }
+                r.run(c, true);
+            }
+        }
+    }
 }
 
-pub const RULE: &str = "13 indicators × sampled periods to 300 × multipliers {0,0.5,1,2,3,10,1e3,1e6} × finite streams of any sign in 9 regimes, magnitudes 1e-3..1e11, a quarter of them engineered for cancellation (values ×10^4 then a flat stretch with 1-ulp ripple, as in test_next_floating_point_error); checked at every step: SD, MAD >= 0 and not NaN; TR, ATR >= 0 (valid bars); Minimum <= Maximum (twin instance); lower <= average <= upper exactly (BB, KC); CE long <= window max(high), short >= window min(low) exactly; MACD/PPO histogram == line − signal exactly; SMA/WMA within [window min, max] ± tau(t)·M; EMA within [history min, max] ± tau(t)·M. A fifth of the cases contain one or two reset() calls (window, history hull and t restart). Non-trivial = longer than the period.";
+/// tiny magnitudes (normal doubles with 17 significant digits; squares of the last one underflow)
+pub const TINY_SCALES: &[f64] = &[1e-9, 1e-17, 1e-20, 1e-300];
+/// constructors that allocate no window: every usize is a legal period
+pub const ALLOC_FREE: &[&str] = &["ExponentialMovingAverage", "AverageTrueRange", "KeltnerChannel", "MovingAverageConvergenceDivergence", "PercentagePriceOscillator"];
+pub const BOUNDARY_PERIODS: &[usize] = &[
+    (1 << 31) - 1, 1 << 31, (1 << 32) - 1, 1 << 32, (1 << 32) + 1, (1 << 53) - 1, 1 << 53, (1 << 53) + 1, (1 << 63) - 1, 1 << 63, usize::MAX - 1, usize::MAX,
+];
+/// scalar-fed indicators whose claim covers any sign
+fn has_scalar_any_sign(name: &str) -> bool {
+    ind::has_next_name(name) && !matches!(name, "TrueRange" | "AverageTrueRange" | "KeltnerChannel")
+}
+
+pub const RULE: &str = "13 indicators x sampled periods to 300 x multipliers {0,0.5,1,2,3,10,1e3,1e6} x finite streams of any sign in 9 regimes, magnitudes 1e-3..1e11 and - every fourth case - tiny magnitudes {1e-9, 1e-17, 1e-20, 1e-300}, a quarter of them engineered for cancellation (values x10^4 then a flat stretch with 1-ulp ripple, as in test_next_floating_point_error); plus, for every indicator and every tiny magnitude, same-sign streams (strictly positive; 30% strictly negative for the scalar-fed any-sign indicators) of 1..200 inputs in walk/flat/plateau/saw/trend/alt regimes, periods 1..4 and sampled to 60, multipliers {0,0.5,2,1e3}, half of them with a reset(); plus boundary periods for the constructors that allocate no window (EMA, ATR, KeltnerChannel, MACD, PPO): each period position in turn takes each of 2^31-1, 2^31, 2^32-1, 2^32, 2^32+1, 2^53-1, 2^53, 2^53+1, 2^63-1, 2^63, usize::MAX-1, usize::MAX (the other positions sampled to 30), streams of 2..60 inputs, the constructor must succeed; checked at every step: SD, MAD >= 0 and not NaN; TR, ATR >= 0 (valid bars); Minimum <= Maximum (twin instance); lower <= average <= upper exactly (BB, KC); CE long <= window max(high), short >= window min(low) exactly; MACD/PPO histogram == line - signal exactly; SMA/WMA within [window min, max] +- tau(t)*M; EMA within [history min, max] +- tau(t)*M (M = largest magnitude fed since reset, so the slack scales with the data). A fifth of the cases contain one or two reset() calls (window, history hull and t restart). Non-trivial = longer than the period.";
